@@ -5,9 +5,23 @@ OVL = "parsec/interfaces/dtd/overlap_strategies.c"
 FLS = "parsec/interfaces/dtd/parsec_dtd_data_flush.c"
 INT = "parsec/interfaces/dtd/insert_function_internal.h"
 UNITS = [INS, OVL, FLS, INT]
-OUTSIDE = []
-ASSUMPTIONS = []
-BOUNDS = {"quick": {}, "thorough": {}}
+OUTSIDE = ["real threads: tasks are started/completed one runtime call at a time (interleavings INSIDE parsec_insert_dtd_task / parsec_dtd_ordering_correctly, the spin-waits of release_ownership_of_data / made_sure_nextinline_is_null, the tile lock) are not explored",
+           "multi-rank: remote tasks, affinity, remote-dependency activation, rank_sent_to bookkeeping (nb_nodes = 1, every task and tile on rank 0)",
+           "sliding window blocking (parsec_execute_and_come_back re-enters the scheduler; the window never fills with <= 6 tasks)",
+           "the variadic public API (parsec_dtd_insert_task, parsec_dtd_create_task, parsec_dtd_insert_task_with_task_class), task-class creation and its mempools; tasks are created by the non-variadic internals",
+           "the read-first path (a tile whose first access is a read gets a 'fake writer' through the variadic API)",
+           "PARSEC_ATOMIC_WRITE (documented 'DO NOT USE'), PARSEC_DONT_TRACK, PARSEC_PULLIN/PUSHOUT and NULL tiles in the chain scenarios (data_lookup contract covers every op word)",
+           "the AGAIN rescheduling with priority demotion in scheduling.c:__parsec_task_progress (the harness plays the re-poll)",
+           "GPU/accelerator copies, on-demand allocated copies (PARSEC_DATA_CREATE_ON_DEMAND), arena datatypes (none registered)",
+           "chains longer than writer + 3 readers + writer, more than 2 tiles, more than 3 flows per task",
+           "tasks that name the same tile in several parameters: they break the reader count (known finding C03-same-tile-twice, harness/C03/FINDING.md: afterwards a writer can overlap a reader); the C04 chain scenarios use one flow per task"]
+ASSUMPTIONS = ["task creation mirrors the local branch of __parsec_dtd_taskpool_create_task (takes a va_list, not callable): real parsec_dtd_create_and_initialize_task + real parsec_dtd_set_params_of_task per flow + obj_reference_count += 1 + number of tracked write flows",
+               "task class objects, taskpool, context, tiles and data copies are static harness objects initialised with the field values parsec_dtd_taskpool_new / parsec_dtd_tile_of / parsec_dtd_task_class_construct_mempools give them for nb_nodes = 1",
+               "a run step = the calls __parsec_task_progress / __parsec_complete_execution make for a DTD task: prepare_input (data_lookup_of_dtd_task), body, prepare_output, complete_execution (complete_hook_of_dtd), release_task",
+               "bodies of DTD functions no scenario reaches are stripped before the analysis (list RB in C04/spec.py) to keep CBMC's function-pointer candidate sets small",
+               "structural choices (chain length, when the first writer runs, ...) are inputs of a query but the harness dispatches on them (one unfolding per choice from the initial state); access modes are enumerated by spec.py because a symbolic op word makes every pointer of the chain symbolic"]
+BOUNDS = {"quick": {"lookup": "<=3 flows, 2 copies, any op word, reader counts 0..2^20", "chain": "writer, 0..3 readers, optional writer; (INOUT,INOUT) with 3 readers, (OUTPUT,INOUT) and (INOUT,OUTPUT) with 2"},
+          "thorough": {"chain": "all four writer mode pairs with 3 readers; region index 5"}}
 STUBS = ["task/tile mempools (static typed objects handed out by slot; free only counts)", "__parsec_schedule/__parsec_schedule_vp (record 'made ready')",
          "termination detector taskpool_addto_nb_tasks (ghost counter)", "parsec_hash_table_nolock_find (arena datatype: not registered) / parsec_hash_table_remove (records)",
          "object classes statically initialised", "parsec_fatal = assume(0)", "parsec_execute_and_come_back = assume(0) (window never fills)",
@@ -27,18 +41,22 @@ RB = ["parsec_dtd_insert_task", "parsec_execute_and_come_back", "__parsec_dtd_ta
       "parsec_dtd_tile_new_dc_data_key", "parsec_dtd_tile_new_dc_data_of", "parsec_dtd_tile_new_dc_data_of_key", "parsec_dtd_tile_new_dc_key_to_string",
       "parsec_dtd_tile_new_dc_rank_of", "parsec_dtd_tile_new_dc_rank_of_key", "parsec_dtd_tile_new_dc_vpid_of", "parsec_dtd_tile_new_dc_vpid_of_key",
       "parsec_dtd_taskpool_supports_device_type", "set_deps_for_flush_task"]
-UF = {"parsec_atomic_lock": 2, "made_sure_nextinline_is_null": 2, "release_ownership_of_data": 2}
+# tight per-function loop bounds: spin loops 2 (a sequential run never spins; more = unwinding-assertion failure),
+# loops over the flows of a task NF+2
+UF = {"parsec_atomic_lock": 2, "made_sure_nextinline_is_null": 2, "release_ownership_of_data": 2,
+      "parsec_dtd_create_and_initialize_task": 5, "data_lookup_of_dtd_task": 5, "output_data_of_dtd_task": 5, "complete_hook_of_dtd": 5,
+      "parsec_dtd_release_local_task": 5, "parsec_dtd_remote_task_release": 5, "parsec_insert_dtd_task": 5, "parsec_dtd_release_deps": 5}
 
 def queries(ctx):
     qs = []
-    qs.append(Q("lookup_again_iff", ["lookup.c"], unwind=7, unwind_fn=UF, units=UNITS, object_bits=12, timeout=600,
+    qs.append(Q("lookup_again_iff", ["lookup.c", "native_stubs.c"], unwind=7, unwind_fn=UF, units=UNITS, object_bits=12, timeout=600,
                 remove_bodies=RB,
                 info={"symbolic": ["number of flows 0..3", "per flow: access mode in {INPUT,OUTPUT,INOUT,ATOMIC_WRITE}, all other op bits, copy absent / copy 0 / copy 1", "reader counts 0..2^20 of both copies"],
                       "functions": ["data_lookup_of_dtd_task", "parsec_dtd_data_copy_reader_count", "parsec_dtd_create_and_initialize_task"],
                       "stubs": STUBS, "bounds": {"flows": 3, "copies": 2}}))
     ops = {"rw": "PARSEC_INOUT", "w": "PARSEC_OUTPUT"}
     def chain(o0, o1, rmax, region, tiers, slow=False):
-        qs.append(Q("chain_%s_%s_r%d%s" % (o0, o1, rmax, "_reg%d" % region if region else ""), ["chain.c"],
+        qs.append(Q("chain_%s_%s_r%d%s" % (o0, o1, rmax, "_reg%d" % region if region else ""), ["chain.c", "native_stubs.c"],
                     defs=["OPW0=%s" % ops[o0], "OPW1=%s" % ops[o1], "RMAX=%d" % rmax, "REGION=%d" % region],
                     unwind=7, unwind_fn=dict(UF, parsec_dtd_ordering_correctly=7), units=UNITS, object_bits=12, timeout=1800,
                     remove_bodies=RB, tiers=tiers, slow=slow,
@@ -70,4 +88,10 @@ def mutants(ctx):
       Mutant("output_writer_walked_as_reader", OVL, "if( !(PARSEC_OUTPUT == desc_op_type || PARSEC_INOUT == desc_op_type) ) {", "if( !(PARSEC_INOUT == desc_op_type) ) {", queries=["chain_rw_w_r2"]),
       Mutant("reader_release_not_atomic_dec", INT, "previous = parsec_atomic_fetch_dec_int32(&data->readers);", "previous = parsec_atomic_fetch_add_int32(&data->readers, 0);", queries=["chain_w_rw_r2", "chain_rw_rw_r3"]),
     ]
-CLAIMED = False
+CLAIMED = True
+MANIFEST = {
+ "engine": "cbmc-src",
+ "text": "Bounded model checking of the real DTD code (insert_function.c, overlap_strategies.c, parsec_dtd_data_flush.c in one translation unit, single process): (1) data_lookup_of_dtd_task returns AGAIN exactly when a flow that writes its copy still has readers on it, for every task of <=3 flows, every op word and every reader count; (2) for every chain writer -> 0..3 readers -> optional writer on one tile, built by the real parsec_insert_dtd_task and executed through the real completion path with the first writer running at any point of the insertion sequence and the readers completing in any order: nobody behind the writer becomes ready before it completed, everybody becomes ready exactly once, copy->readers equals the number of activated, uncompleted readers, readers are never gated, the next writer's gate says AGAIN exactly while such a reader exists, values seen equal the previous writer's, task/copy reference counts and the termination counter balance.",
+ "note": "Task-granularity model of concurrency (no thread interleavings inside the runtime functions); scheduler, mempools, termination detector, hash tables, object classes are harness stubs; task creation mirrors the va_list based internal; nb_nodes = 1; access modes enumerated, structure dispatched per choice.",
+ "technique": "CBMC bounded symbolic execution of the real C units + SAT (cadical)",
+}
